@@ -1,11 +1,11 @@
-from .circuit import Circuit, transform_circuit
+from .circuit import Circuit, input_network
 import numpy as np
 from ..Network.NodalAnalysis.state_space_model import nodal_state_space_model
 from ..SignalProcessing.state_space_model import StateSpaceModel
 
 def state_space_model(circuit: Circuit, potential_nodes: list[str] = [], voltage_ids: list[str] = [], current_ids: list[str] = []) -> StateSpaceModel:
     ssm = nodal_state_space_model(
-        network=transform_circuit(circuit, w=0),
+        network=input_network(circuit),
         c_values={C.id : float(C.value['C']) for C in [c for c in circuit.components if c.type == 'capacitor']},
         l_values={L.id : float(L.value['L']) for L in [c for c in circuit.components if c.type == 'inductance']}
     )
